@@ -13,10 +13,10 @@ EXTRA = {
  "C05": " Also: sample-type changes at unchanged dimensions between acquisitions, cameras whose per-frame shape differs from get_shape at the same byte size, averaging family.",
  "C06": " Also: averaging while monitoring, polls while nothing runs (any stream), two streams half of the time, a region held across abort and released in part afterwards.",
  "C07": " Also: stop from a second thread, the scenario on stream 1 only, the client programs of the lifecycle family (stop/abort twice, before any start, after the acquisition finished by itself) judged with this property's rules, partial release of a region held across stop/abort.",
- "C08": " Also: the read-only API calls (shape, configuration read-back, metadata, backlog) with device-use events, cameras that reject their settings (while not running), unopenable devices.",
+ "C08": " Also: the read-only API calls (shape, configuration read-back, metadata, backlog) with device-use events, cameras that reject their settings (while not running), unopenable devices; Lifecycle.tla also offers both streams the same storage device: the second start is refused, acquire_start fails and winds down what it had started (invariant FailedStartWindsDown, liveness of that join), bound by the same trace refinement (executions with a refused start are among the 64 per run).",
  "C09": " Also: get_shape failures, empty frame calls, the scenario on stream 1 only, averaging windows 1..3, a start right after the fault without configuring the failed device again (refused or not), a client that only polls the state after the fault.",
  "C10": " Also: another window size between acquisitions, all integer sample types incl. u10/u12/u14.",
- "C11": " Also: a driver call with a pointer that is none of the driver's devices (CallOnUnknownDevice); a crash of the wrappers under a HAL call is a verdict.",
+ "C11": " Also: a driver whose open fails after it stored a pointer in *out; a driver call with a pointer that is none of the driver's devices (CallOnUnknownDevice); a crash of the wrappers under a HAL call is a verdict.",
  "C12": " Also: a malformed pattern repeated right after a successful selection on the same device manager; a pattern the regex library itself refuses to compile must give an error (MalformedAccepted); refusals are confirmed together with the calls that preceded them.",
  "C14": " Also: storage_set on a running device (accepted / rejected), path names that extend or are proper prefixes of the previous one, the file a start creates must be the configured one whatever the URI spelling (OpenWrongPath).",
  "C13": " Also: a destination field that refers to the source's own buffer (alias, as after a shallow struct copy) and is then copied over.",
